@@ -189,6 +189,8 @@ func init() {
 		for _, ab := range [][2]ct.Comp{{ct.S, ct.Z}, {ct.L, ct.S}, {ct.Z, ct.L}} {
 			for _, path := range []model.Path{model.PathMapN, model.PathUnsafe} {
 				o := plainOpts{a: ab[0], b: ab[1], c: ct.NumComps, path: path, maxAlive: 4, copyOp: true, nilInit: true}
+				// pointer-bearing values are also moved table-wise (batch) into non-empty tables
+				o.batch = ab[0] == ct.S && path == model.PathMapN
 				scs = append(scs, plainScenario("C01-S2-kinds/"+ab[0].String()+ab[1].String()+"/"+path.String(), o,
 					cfgs([]int{1}, []int{0}, one, uKinds), d, worldOracle, plainPreludes(ab[0], ab[1], path)))
 			}
